@@ -315,7 +315,7 @@ fn one1(case: &Case, r: &Rejected, st: &mut Stats) -> Result<bool, Violation> {
         for xs in [&mut a, &mut b] {
             xs.set_insn_limit(Some(*k)).unwrap();
             let r = metered(xs, |xs| xs.compile(src).and_then(|_| xs.run()));
-            paused = matches!(&r, Err(Xerr::ErrorMsg(m)) if m.starts_with("insn limit reached")) && xs.is_running();
+            paused = is_limit_err(&r, Some("insn")) && xs.is_running();
             xs.set_insn_limit(None).unwrap();
         }
         if paused {
@@ -335,7 +335,7 @@ fn one1(case: &Case, r: &Rejected, st: &mut Stats) -> Result<bool, Violation> {
             c.set_insn_limit(Some(PROBE_LIMIT)).unwrap();
             let rc = metered(&mut c, |c| c.compile(&text).and_then(|_| c.run()));
             match &rc {
-                Err(Xerr::ErrorMsg(m)) if m.contains("limit reached") => {}
+                Err(Xerr::ErrorMsg(m)) if is_limit_msg(m, None) => {}
                 Err(_) => fail_meter = Some(c.verif_insn_meter()),
                 Ok(()) => {}
             }
@@ -440,7 +440,7 @@ fn one1(case: &Case, r: &Rejected, st: &mut Stats) -> Result<bool, Violation> {
     }
     if !build_time {
         if let Err(Xerr::ErrorMsg(m)) = &res {
-            if m.starts_with("insn limit reached") && budget_spent {
+            if is_limit_msg(m, Some("insn")) && budget_spent {
                 // only paused by the watchdog: resuming it later is not a re-execution
                 st.count("probe.paused_by_watchdog");
                 return Ok(false);
